@@ -256,6 +256,30 @@ class _Gen:
             p = [r.choice(["and", "or"]), p, leaf()]
         return p
 
+    def keyexpr(self, keys, typ):
+        """A NON-INJECTIVE expression of the group keys with result type `typ` (different groups may collide:
+        NULL vs the COALESCE default, values a CASE threshold or an arithmetic operator does not separate)."""
+        r = self.rng
+        same = [kx for kx in keys if _typeof_loose(kx) == typ]
+        anyk = r.choice(keys)
+        anyt = _typeof_loose(anyk)
+        lit2 = (lambda: ["int", r.choice([0, 0, 1, -1])]) if typ == "int" else (lambda: ["str", r.choice(TEXTS)])
+        k = r.random()
+        if same and k < 0.35:
+            return ["coalesce", r.choice(same), lit2()]
+        if same and typ == "int" and k < 0.6:
+            a = r.choice(same)
+            others = [x for x in same if x != a]
+            if others and r.random() < 0.6:
+                return ["arith", r.choice(ARITH_OPS), a, r.choice(others)]
+            return ["arith", r.choice(["*", "-"]), a, a if r.random() < 0.3 else ["int", r.choice([0, 0, 2])]] \
+                if r.random() < 0.6 else ["arith", "*", a, a]
+        if anyt in ("int", "text"):
+            cond = ["isnull", anyk, r.random() < 0.5] if r.random() < 0.35 else \
+                ["cmp", r.choice(CMP_OPS), anyk, ["int", r.choice([0, 1, 1])] if anyt == "int" else ["str", r.choice(TEXTS)]]
+            return ["case", cond, lit2(), lit2() if r.random() < 0.7 else None]
+        return ["coalesce", r.choice(same), lit2()] if same else lit2()
+
     # ---- select
     def select(self, role, types=None, avoid_base=None):
         """role: 'top' | 'arm'."""
@@ -311,16 +335,30 @@ class _Gen:
                     if kx not in keys:
                         keys.append(kx)
             q["group"] = keys
+            # DISTINCT / HAVING / ORDER BY / LIMIT interactions over *expressions of the keys*: a third of the grouped
+            # selects project only keys and non-injective functions of keys (no aggregate needed to be valid)
+            keyish = mode == "group" and r.random() < 0.4
+            n_keyexpr = 0
             for typ in types:
                 cands = [kx for kx in keys if _typeof_loose(kx) == typ]
-                if cands and r.random() < 0.5:
+                u = r.random()
+                if keys and u < (0.6 if keyish else 0.12):
+                    e = self.keyexpr(keys, typ)
+                    n_keyexpr += 1
+                elif cands and u < (0.9 if keyish else 0.5):
                     e = r.choice(cands)
+                elif keys and typ == "int" and u < 0.56:
+                    e = ["arith", r.choice(ARITH_OPS), self.keyexpr(keys, "int"), self.agg(scope, "int")]
+                    n_keyexpr += 1
                 else:
                     e = self.aggexpr(scope, typ)
                 proj.append({"e": e, "as": None})
             if r.random() < (0.35 if mode == "group" else 0.1):
                 q["having"] = self.having(scope, keys)
-            if r.random() < 0.05:
+                if keys and r.random() < 0.3:
+                    q["having"] = [r.choice(["and", "or"]), q["having"],
+                                   ["cmp", r.choice(CMP_OPS), self.keyexpr(keys, "int"), ["int", r.choice([0, 1])]]]
+            if r.random() < (0.55 if n_keyexpr else (0.3 if keyish else 0.05)):
                 q["distinct"] = True
         # aliases / unique names
         names = set()
